@@ -60,7 +60,7 @@ EVENTS = (
     + [("reg", "r2", 3, None, (-100, 100)), ("reg", "r2", 3, 50, None)]
     + [("op", "o1", 2, p, None) for p in (-300, 0, 200, 500)]
     + [("bounds", k) for k in ("widen", "shrink", "shift", "b1000", "none")]
-    + [("result", k) for k in ("success", "partial", "error")]
+    + [("result", k) for k in ("success", "partial", "error", "partial-old")]
     + [("expire",)]
 )
 EVENTS_T = EVENTS + [("bounds", "excl"), ("reg", "r1", 1, 50, None), ("op", "o2", 4, None, (-100, 600))]
@@ -102,6 +102,7 @@ def run_history(hist, start="warm"):
             latest = {False: None, True: None}
             cur_bounds = [None]
             last_request = [None]
+            all_requests = []
 
             def fire(e):
                 if e[0] in ("reg", "op"):
@@ -119,9 +120,11 @@ def run_history(hist, start="warm"):
                     loop.settle()
                 elif e[0] == "result":
                     req = last_request[0] or Request(power=W(0), component_ids=set(IDS))
+                    if e[1] == "partial-old" and len(all_requests) >= 2:
+                        req = all_requests[-2]  # a late result for a request that has been superseded meanwhile
                     if e[1] == "success":
                         res = Success(request=req, succeeded_power=req.power, succeeded_components=set(IDS), excess_power=W(0))
-                    elif e[1] == "partial":
+                    elif e[1] in ("partial", "partial-old"):
                         res = PartialFailure(request=req, succeeded_power=W(0), succeeded_components=set(), failed_power=req.power,
                                              failed_components=set(IDS), excess_power=W(0))
                     else:
@@ -136,6 +139,7 @@ def run_history(hist, start="warm"):
                 while len(rq):
                     r = rq.consume()
                     last_request[0] = r
+                    all_requests.append(r)
                     reqs.append(r.power.as_watts())
                 for op, rx in subs.items():
                     while len(rx):
@@ -232,7 +236,7 @@ def run(tier: str, seed: int, workers: int):
     meta = {
         "rule": "every history to depth 4 (quick) / 5 (thorough) over the event menu {regular proposal (2 actors: preferred -300/300/2000, "
         "bounds-only, 50), operating-point proposal (-300/0/200/500), system bounds widen / shrink / shift / back / unavailable, "
-        "distribution result Success / PartialFailure / Error, expiry (+61 s)} from a warm start (bounds +-1000 delivered, one regular "
+        "distribution result Success / PartialFailure / Error for the latest request and a late PartialFailure for the previous one, expiry (+61 s)} from a warm start (bounds +-1000 delivered, one regular "
         "and one operating-point report subscription) and to depth 3-4 from a cold start (no bounds yet); non-trivial = history with a "
         "regular and an operating-point proposal and at least one bounds/result/expiry event",
         "assumptions": [
